@@ -2347,6 +2347,15 @@ pub fn generate(data: &[u8], cfg: &GenCfg) -> Generated {
             }
             ns.locals(&inm);
         }
+        // label / field subsections (which walrus ignores) between the ones
+        // it reads
+        if ch.chance(1, 5) {
+            let mut inm = we::IndirectNameMap::new();
+            let mut nm = we::NameMap::new();
+            nm.append(0, "label0");
+            inm.append(0, &nm);
+            ns.labels(&inm);
+        }
         if split_names {
             m.section(&ns);
             ns = we::NameSection::new();
@@ -2354,6 +2363,13 @@ pub fn generate(data: &[u8], cfg: &GenCfg) -> Generated {
         if ch.chance(1, 2) {
             let nm = pick_names(ch, env.types.len(), "type");
             ns.types(&nm);
+        }
+        if ch.chance(1, 8) {
+            let mut inm = we::IndirectNameMap::new();
+            let mut nm = we::NameMap::new();
+            nm.append(0, "field0");
+            inm.append(0, &nm);
+            ns.fields(&inm);
         }
         if ch.chance(1, 2) && !env.tables.is_empty() {
             let nm = pick_names(ch, env.tables.len(), "table");
@@ -2396,6 +2412,9 @@ pub fn generate(data: &[u8], cfg: &GenCfg) -> Generated {
             f = we::ProducersField::new();
         }
         ps.field("processed-by", &f);
+        if ch.chance(1, 6) {
+            ps.field("sdk", &we::ProducersField::new());
+        }
         if ch.bool() {
             let mut l = we::ProducersField::new();
             l.value("C99", "");
